@@ -13,6 +13,10 @@ ISCSI_KEY = ("10.0.0.1:3260", "iqn.2026-10.verif:tgt0", 0)
 
 def make_lu(cfg, ident=0):
     kind = cfg["kind"]
+    if kind == F.BLOCK and cfg.get("dev_type", 0) == 5:
+        return T.MmcLU(5, cfg.get("qualifier", 0), ident, num_blocks=cfg["nblocks"])
+    if kind == F.BLOCK and cfg.get("dev_type", 0) not in (0, 4, 7, 0x0E):
+        return T.GenericLU(cfg["dev_type"], cfg.get("qualifier", 0), ident)
     if kind == F.BLOCK:
         return T.BlockLU(cfg.get("dev_type", 0), cfg.get("qualifier", 0), ident, block_size=cfg["bs"], num_blocks=cfg["nblocks"])
     if kind == F.CHANGER:
